@@ -252,3 +252,20 @@ PROPS["C09"] = dict(
     exhaustive_axes="message lengths 0..700; all bit positions of one chunk; start counters 2^32-k for k=1..4",
     assumptions=ASSUME_COMMON,
 )
+
+_WRAP = ["-Wl," + ",".join("--wrap=" + f for f in ["malloc", "calloc", "realloc", "posix_memalign", "aligned_alloc", "free", "mmap", "munmap"])]
+PROPS["C20"] = dict(
+    name="c20", sources=["props/c20.cpp"], engine="fault-position enumerator", ldflags=_WRAP, max_workers=8,
+    builds=[("asan", "native")],
+    builds_thorough=[("asan", "native"), ("asan", "portable")],
+    level="fault_enumeration",
+    rule=("Link-time interposition of malloc/calloc/realloc/posix_memalign/aligned_alloc/free/mmap/munmap in an ASan build, armed only around the library call. For each of 18 API forms (crypto_pwhash argon2i/argon2id, "
+          "crypto_pwhash_str, _argon2i_str, _str_alg, str_verify with right and wrong password for argon2id and argon2i strings, the variant-specific verifier, needs_rehash with equal and different parameters, scrypt raw / _ll / "
+          "_str / _str_verify right and wrong, sodium_malloc, sodium_allocarray) and each of 3-5 parameter sets, a counting run records the n allocation requests and checks the fault-free verdict; then EVERY position i<n "
+          "is made to fail alone and EVERY suffix 'all requests from i on' is made to fail (2n runs). Oracle whenever the armed fault was actually hit: the call does not report success (str_verify never returns 0, "
+          "needs_rehash returns neither 0 nor 1, no usable hash string is left in the output, sodium_malloc returns NULL), the wrapper's live-block count returns to its value before the call (no leak), no free/munmap "
+          "of a block that is not live (double free), no ASan report, no signal. Non-trivial = a run in which the armed failure was hit; distinct = (API, parameter set, position, single/suffix)."),
+    exhaustive_axes="every allocation-request position (single failure and failing suffix) of every API form and parameter set",
+    assumptions=["allocation requests made through the C library entry points above (what libsodium uses on Linux); mlock/mprotect failures are not allocation failures and are not injected",
+                 "clang -O1 ASan+UBSan build of /repo's working tree"],
+)
